@@ -36,7 +36,10 @@ def expect(cond, msg):
 
 
 T, F = True, False
-S1T0 = {"S1": {"T0": ["(7,)"]}}
+S1T0 = {"S1": {"T0": ["(7, 'seven')"]}}
+# prior "database": S1 is missing, but DB1 holds another schema with a table (something stored that could be disturbed);
+# the rows below list only what the connect is about (S1), SXKX is added to the expectation for that prior
+SXKX = {"SX": {"KX": ["(5, 'five')"]}}
 
 # ---------------------------------------------------------------------------------------------------------------------
 # 1. hand-written rows:
@@ -97,6 +100,8 @@ for (cd, cs, storage, prior, earlier, (db, sch)), want in ROWS:
     for a in earlier:
         m.connect(*a)
     e = m.connect(db, sch)
+    if prior == "database" and want[6] is not None:
+        want = want[:6] + (dict(want[6], **SXKX),) + want[7:]
     got = (e["database"], e["schema"], e["created_db"], e["created_schema"], e["has_db"], e["has_schema"], m.cat.get("DB1"))
     p = m.expected_probe(len(m.sessions) - 1)
     got = got + (p[0], p[2])
@@ -229,6 +234,7 @@ class FakeLive:
         self.cfg = cfg
         self.m = c14.Model(cfg)
         self.sessions = [object()]
+        self.prev_side = {"DB1": (("information_schema._fs_tables_ext", ("row",)),), "OLD": ()}
         for a in hist:
             self.m.connect(*a)
             self.sessions.append(FakeConn(a[0] and a[0].upper(), a[1] and a[1].upper()))
@@ -238,6 +244,7 @@ def obs_of(m, files=None, cwd=()):
     return {
         "cat": copy.deepcopy(m.cat),
         "sessions": [("OTHER", "SO", ("OTHER", "SO"))] + [(x["database"], x["schema"], ("memory", "main")) for x in m.sessions[1:]],
+        "side": {d: (("information_schema._fs_tables_ext", ("row",)),) for d in m.cat},
         "files": tuple(sorted(f"{d}.db" for d in (m.disk or {}))) if files is None else files,
         "cwd": cwd,
         "hashes": (),
@@ -287,6 +294,20 @@ expect(
 expect(judged((T, T, "memory", "nothing"), [("db1", "s1")], mutate=lambda p: p["cat"]["DB1"].pop("S1"))[0] == [("C14.creates_exactly", "schema_not_created")], "schema not created")
 expect(judged((T, F, "memory", "nothing"), [("db1", "s1")], mutate=lambda p: p["cat"]["DB1"].__setitem__("S1", {}))[0] == [("C14.creates_exactly", "schema_not_allowed")], "schema created against the flag")
 expect(judged((F, F, "memory", "nothing"), [("db1", None)], mutate=lambda p: p["cat"].__setitem__("DB1", {}))[0] == [("C14.creates_exactly", "database_not_allowed")], "database created against the flag")
+expect(
+    judged(CFG, [("db1", "s1")], mutate=lambda p: p["side"].__setitem__("OTHER", (("information_schema._fs_tables_ext", ()),)))[0] == [("C14.undisturbed", "stored_metadata")],
+    "stored comments / lengths of a bystander database wiped",
+)
+expect(
+    judged(CFG, [("db1", "s1")], mutate=lambda p: p["side"].__setitem__("DB1", (("information_schema._fs_columns_ext", ()),)))[0] == [("C14.undisturbed", "stored_metadata")],
+    "stored comments / lengths of the database connected to wiped",
+)
+expect(
+    judged((T, F, "previous", "database+schema"), [("db1", "s1")], mutate=lambda p: p["side"].__setitem__("DB1", (("information_schema._fs_tables_ext", ()),)))[0]
+    == [("C14.undisturbed", "previous_instance_stored_metadata")],
+    "a database attached from a previous instance's file lost its stored metadata",
+)
+expect(judged((T, F, "previous", "database+schema"), [("db1", "s1")])[0] == [], "previous instance's metadata intact passes")
 f, mem = judged((F, T, "memory", "nothing"), [("db1", "s1")], got=("err", "duckdb.duckdb.BinderException", None, None, "x"))
 expect(f == [("C14.no_raise", "exc=BinderException")] and mem == [("C14.no_raise", "cd=F,cs=T,db=missing,schema=given,exc=BinderException", True)], f"raise is reported and counted as member: {f} {mem}")
 f, mem = judged((F, T, "memory", "nothing"), [("db1", "s1")])
@@ -371,6 +392,20 @@ expect([(c, k) for c, k, _ in fs_] == [("C14.undisturbed", "shape,session=first,
 fs_ = []
 c14.judge_probes([("db1", "s1"), ("db1", "s1")], live, (s0ok, lost, back), (s0ok, back), "shape", fs_, dict(exp_, created_schema=F), rep_)
 expect([(c, k) for c, k, _ in fs_] == [("C14.undisturbed", "shape,session=earlier,first_unqualified_statements")], f"nothing created -> earlier session must behave as before: {fs_}")
+
+# 6. the stored-metadata window: bookkeeping tables (prefix _fs_) per database, the global database left out
+raw_ = {
+    "tables": (("DB1", "S1", "T0", "sql"), ("DB1", "information_schema", "_fs_tables_ext", "sql"), ("_fs_global", "main", "_fs_users_ext", "sql")),
+    "data": (("DB1.S1.T0", ("(7, 'seven')",)), ("DB1.information_schema._fs_tables_ext", ("('DB1', 'S1', 'T0', 'prior table')",)), ("_fs_global.main._fs_users_ext", ())),
+}
+expect(c14.stored_metadata(raw_) == {"DB1": (("information_schema._fs_tables_ext", ("('DB1', 'S1', 'T0', 'prior table')",)),)}, f"stored_metadata: {c14.stored_metadata(raw_)}")
+# Snowflake: VARCHAR(20) -> CHARACTER_MAXIMUM_LENGTH 20 and DESCRIBE type VARCHAR(20); INT -> NUMBER(38,0), no length
+expect(dict(c14.T0_REPORTED["character_maximum_length"]) == {"V": 20, "X": None}, "hand-written lengths")
+expect(dict(c14.T0_REPORTED["describe"]) == {"X": "NUMBER(38,0)", "V": "VARCHAR(20)"}, "hand-written DESCRIBE types")
+expect("varchar(20)" in " ".join(c14.PRIOR_SQL["database+schema"]) and "comment = 'prior table'" in " ".join(c14.PRIOR_SQL["database+schema"]), "fixture matches the hand-written values")
+for sqls in (c14.BYSTANDER_SQL, c14.OLD_SQL, c14.PRIOR_SQL["database"], c14.PRIOR_SQL["database+schema"]):
+    creates = [q for q in sqls if q.startswith("create table")]
+    expect(creates and all("varchar(" in q and "comment =" in q for q in creates), f"every fixture table has a sized VARCHAR and a comment: {creates}")
 
 print(f"{len(ROWS)} hand-written rows, {n} literal-table cells, oracle cases; failures: {len(FAILS)}")
 sys.exit(1 if FAILS else 0)
